@@ -168,10 +168,10 @@ def axi_contract(cfg):
         byte_at(f(r.data), lane, 2) == G(f, "spec")))
     c.bounded("write_data_present_when_memory_takes_it", lambda f: Implies(f.b(port.wdata.ready), f.b(port.wdata.valid)))
     sc = cfg.get("scenario")
-    if cfg.get("fixed_bursts_single_beat"):
-        # excludes exactly the pattern of known finding C09-rmw-stale-read-inside-a-burst (a later beat of the same burst
-        # re-visiting a native word with partial strobes)
-        c.assume("scenario.fixed_bursts_have_one_beat", lambda f: Implies(f.b(aw.valid), Or(f(aw.burst) != 0, f(aw.len) == 0)))
+    if cfg.get("single_beat_bursts"):
+        # excludes exactly the pattern of known finding C09-rmw-stale-read-inside-a-burst (a partial-strobe beat that is
+        # not the first beat of its burst)
+        c.assume("scenario.write_bursts_have_one_beat", lambda f: Implies(f.b(aw.valid), f(aw.len) == 0))
     if sc in ("write_only", "b_stall"):
         c.assume("scenario.no_reads", lambda f: Not(f.b(ar.valid)))
     if sc == "read_only":
@@ -279,7 +279,7 @@ def burst2beat_contract(cfg):
 
 # ---- native read-modify-write scenarios (bounded) ---------------------------------------------------------------------------
 
-def _native_rmw(burst, size, beats, rmw=True):
+def _native_rmw(burst, size, beats, rmw=True, start=0):
     """beats: list of (data16, strb2); one write burst at byte address 0, then a read of word 0"""
     from migen.sim import run_simulation
     axi = LiteDRAMAXIPort(data_width=16, address_width=6, id_width=1)
@@ -292,7 +292,7 @@ def _native_rmw(burst, size, beats, rmw=True):
     res = {}
     def master():
         yield axi.b.ready.eq(1); yield axi.r.ready.eq(1)
-        yield axi.aw.valid.eq(1); yield axi.aw.addr.eq(0); yield axi.aw.burst.eq(burst); yield axi.aw.len.eq(len(beats) - 1); yield axi.aw.size.eq(size)
+        yield axi.aw.valid.eq(1); yield axi.aw.addr.eq(start); yield axi.aw.burst.eq(burst); yield axi.aw.len.eq(len(beats) - 1); yield axi.aw.size.eq(size)
         yield
         while not (yield axi.aw.ready): yield
         yield axi.aw.valid.eq(0)
@@ -335,15 +335,16 @@ def _native_rmw(burst, size, beats, rmw=True):
             if (yield port.cmd.ready) and (yield port.cmd.valid):
                 pend.append(("w" if (yield port.cmd.we) else "r", (yield port.cmd.addr), t + 3))
     run_simulation(h, [master(), memory()])
-    return res.get("read"), mem[0]
+    return res.get("read"), mem[0], mem[1]
 
 
 
-RMW_SCENARIOS = {
-    "FIXED_2_beats_second_without_strobes": (0, 1, [(0x0100, 3), (0x0008, 0)], 0x0100),
-    "INCR_narrow_2_beats_inside_one_word": (1, 0, [(0x00aa, 1), (0xbb00, 2)], 0xbbaa),
-    "INCR_single_beat_partial_strobe": (1, 1, [(0x00aa, 1)], 0x68aa),
-    "INCR_2_beats_partial_strobes": (1, 1, [(0x00aa, 1), (0xbb00, 2)], 0x68aa),
+RMW_SCENARIOS = {   # name: (burst, size, start byte address, beats (data, strb), expected word 0, expected word 1); memory starts 0x68f7, 0x1234
+    "FIXED_2_beats_second_without_strobes": (0, 1, 0, [(0x0100, 3), (0x0008, 0)], 0x0100, 0x1234),
+    "WRAP_2_beats_second_without_strobes_other_word": (2, 1, 2, [(0x0020, 3), (0x8000, 0)], 0x68f7, 0x0020),
+    "INCR_narrow_2_beats_inside_one_word": (1, 0, 0, [(0x00aa, 1), (0xbb00, 2)], 0xbbaa, 0x1234),
+    "INCR_single_beat_partial_strobe": (1, 1, 0, [(0x00aa, 1)], 0x68aa, 0x1234),
+    "INCR_2_beats_partial_strobes": (1, 1, 0, [(0x00aa, 1), (0xbb00, 2)], 0x68aa, 0xbb34),
 }
 
 
@@ -351,10 +352,10 @@ def native_rmw_task(cfg, tier):
     import json, time
     from vc.runner import replay_path
     res = []
-    for name, (burst, size, beats, expect) in RMW_SCENARIOS.items():
+    for name, (burst, size, start, beats, e0, e1) in RMW_SCENARIOS.items():
         t0 = time.time()
-        rd, m0 = _native_rmw(burst, size, beats)
-        ok = rd == expect and m0 == expect
+        rd, m0, m1 = _native_rmw(burst, size, beats, start=start)
+        ok = rd == e0 and m0 == e0 and m1 == e1
         oid = "C09/AXI2Native.native[rmw=True,%s]/bounded/read_after_write_response_sees_the_written_bytes" % name
         r = {"id": oid, "kind": "bounded", "status": "bounded-ok" if ok else "failed", "seconds": round(time.time() - t0, 2),
              "backend": "native-simulation(migen)"}
@@ -362,18 +363,18 @@ def native_rmw_task(cfg, tier):
             path = replay_path("C09", oid)
             json.dump({"property": "C09", "obligation": oid, "module": "contracts.c09", "kind": "pyargs", "args": {"scenario": name}},
                       open(path, "w"), indent=1)
-            r.update(replay=path, reproduced=True, witness=dict(read=rd, memory_word=m0, expected=expect))
+            r.update(replay=path, reproduced=True, witness=dict(read_word0=rd, memory=[m0, m1], expected=[e0, e1]))
         res.append(r)
     return {"results": res}
 
 
 def replay(rp):
     name = rp["args"]["scenario"]
-    burst, size, beats, expect = RMW_SCENARIOS[name]
-    rd, m0 = _native_rmw(burst, size, beats)
-    bad = rd != expect or m0 != expect
+    burst, size, start, beats, e0, e1 = RMW_SCENARIOS[name]
+    rd, m0, m1 = _native_rmw(burst, size, beats, start=start)
+    bad = rd != e0 or m0 != e0 or m1 != e1
     print("replay %s: %s (read %s, memory %s, expected %s)" % (rp["obligation"], "VIOLATED on current tree" if bad else "not violated on current tree",
-                                                               rd, m0, expect))
+                                                               rd, [m0, m1], [e0, e1]))
     return 1 if bad else 0
 
 
@@ -390,7 +391,7 @@ def tasks(tier):
     ]
     if not q:
         plan += [(dict(base=0x8, wdepth=4, rdepth=4), "single", 0, 16, True), (dict(rmw=True), None, 0, 9, False),
-                 (dict(rmw=True, base=0x10, fixed_bursts_single_beat=True), "single", 0, 16, True)]
+                 (dict(rmw=True, base=0x10, single_beat_bursts=True), "single", 0, 16, True)]
     for cfg in [dict(address_width=16), dict(address_width=32)][:1 if q else 2]:
         out.append(dict(fn="burst2beat_contract", cfg=cfg, modes=["inductive", "cover", "difftest"], weight=10, difftest_cycles=100))
     for cfg, sc, dq, dt, one in plan:
